@@ -127,7 +127,12 @@ class Echo:
             node.attrs.setdefault('start_pos', 0)
             node.attrs.setdefault('end_pos', len(toks))
             w = CX.Obj(self.cls)
-            w.attrs['_tokens'] = list(toks)
+            # the node never is the end of the token list: every program the
+            # tool passes on ends in a line end, which belongs to no node (a
+            # handler that looks at the token behind its node finds one)
+            after = cxi.call(CX.ClassVal(self_model.cls(LEX + 'TokNewline')),
+                             [b'\n'], {})
+            w.attrs['_tokens'] = list(toks) + [after]
             w.attrs['_pos'] = 0
             w.attrs['_args'] = {}
             w.attrs['_indent'] = 0
